@@ -390,6 +390,8 @@ package interpreter
 //@   loop 2 invariant result != nil && fresh(result) && 0 <= rangeidx && forall(k, string, old(has(obj, k)) ==> has(result, k) && result[k] == old(obj[k])) && forall(j, 0, rangeidx, typeDef.Fields[j].Default != nil ==> has(result, typeDef.Fields[j].Name))
 //@ func (*Interpreter).ExecuteRoute
 //@   callpre (*interpreter.Environment).Define arg1 == "input" && declIn(i, route) ==> (typeis(arg2, map[string]interface{}) && arg2.(map[string]interface{}) != nil && reqOK(arg2.(map[string]interface{}), declTD(i, route))) || reqOK(nil, declTD(i, route))
+// (any other declared input type - T?, A | B, [T], a scalar - : what is bound as `input`, when not null, has been accepted for it)
+//@   callpre (*interpreter.Environment).Define arg1 == "input" && route.InputType != nil && !typeis(route.InputType, NamedType) && arg2 != nil ==> checkOK(arg2, route.InputType)
 
 // typed query parameters (C07): a required parameter without default must be present; a declared scalar parameter that is
 // present reaches the route as a value of its declared type, or the request fails
